@@ -557,6 +557,13 @@ func (e *explorer) explore(prefix []int, prefixCost int) {
 	if prefixCost == e.bound || e.sc.NoIterate {
 		e.account(c, len(prefix))
 	}
+	if len(c.fails) > 0 {
+		// a failing execution is a counterexample: its deviations are not
+		// expanded (the search goes on from the other branches).  This never
+		// happens on code where the property holds, and it keeps executions
+		// that ran into the step budget from spawning a subtree per step.
+		return
+	}
 	choices, points := c.choices, c.points
 	for i := len(prefix); i < len(points) && i < c.pruneFrom; i++ {
 		p := &points[i]
